@@ -406,8 +406,8 @@ def runner_main(argv):
     print('%s: %d violating observations in %d cases: %s' % (pid, len(unknown), ev, kinds))
     return 1
   if problems:
-    for pmsg in problems[:10]:
-      print('INCONCLUSIVE property=%s reason=%s' % (pid, pmsg.replace('\n', ' | ')[:1500]))
+    for pmsg in list(dict.fromkeys(problems))[:6]:
+      print('INCONCLUSIVE property=%s reason=%s' % (pid, pmsg.replace('\n', ' | ')[-700:]))
     return 2
   print('%s held: %d cases, %d distinct non-trivial, %d obligations, %d events, %.1fs [%s, seed %d]' % (
     pid, ev, len(sigs), obligations, events, wall, tier, seed))
